@@ -1,3 +1,4 @@
 import ZxVerif.Props.C17
 import ZxVerif.Props.C18
+import ZxVerif.Props.C19
 import ZxVerif.Props.C20
